@@ -12,6 +12,15 @@ profile. They exist because seeded changes of round 2 needed them to manifest (D
  p_global_dep_order   two global build deps selected in different orders by two apps that share a custom-build module
  p_late_ifthen_leaf   N has an if-then dependency L: [D]; L has no dependencies of its own and is reached after N through an
                       optional dependency or as one of several providers; D cannot be resolved
+ round 4:
+ p_rule_rename_chain  default defines CC for .c, a middle context a differently NAMED rule for .c, a builder below it CC for .c again
+                      (rules are keyed by input extension, not by name); variant: the builder re-defines the name for another extension
+ p_ifthen_feature_cond an if-then dependency whose condition is only a PROVIDED feature name (never a module): it is not active in the
+                      resolver nor in the import closure, although its target is in the build and exports variables
+ p_empty_blockallow   an app (or the app defaults) with an explicitly empty allowlist / blocklist
+ p_rule_export_escape a rule exporting a value with an escaped reference to a defined variable
+ p_optsrc_same_guard  a module naming the same optional-source guard twice (own list, or defaults + own)
+ p_subdirs_later_doc  a multi-document file listing a sub-directory from a document that is not the first, with different defaults
 """
 import copy, random
 
@@ -219,7 +228,128 @@ def dup_listing(p, rng):
             root_docs.append({kind: [x]})
 
 
-SHAPES = [("p_dup_listing", dup_listing), ("p_ctx_shuffle", ctx_shuffle), ("p_app_dup", app_dup), ("p_rule_field_variant", rule_field_variant),
+def rule_rename_chain(p, rng):
+    root = _root(p)
+    if "contexts" not in root or "builders" not in root:
+        return
+    dflt = next((c for c in root["contexts"] if c.get("name") == "default"), None)
+    if dflt is None or not any(r.get("in") == "c" for r in dflt.get("rules") or []):
+        return
+    variant = rng.choice(["same-ext", "same-ext", "other-ext"])
+    root["contexts"].append({"name": "rnmid", "parent": "default",
+                             "rules": [{"name": "CLANG", "in": "c", "out": "o", "cmd": "clang-mid ${CFLAGS} -c ${in} -o ${out}"}]})
+    if variant == "same-ext":
+        root["builders"].append({"name": "rnb", "parent": "rnmid",
+                                 "rules": [{"name": "CC", "in": "c", "out": "o", "cmd": "cc-rnb ${CFLAGS} ${DEFS} -c ${in} -o ${out}"}]})
+    else:
+        # the builder re-defines the NAME CC for another extension: .c files keep the middle context's CLANG
+        root["builders"].append({"name": "rnb", "parent": "rnmid",
+                                 "rules": [{"name": "CC", "in": "cc", "out": "o", "cmd": "cxx-rnb -c ${in} -o ${out}"}]})
+    if rng.random() < 0.6:
+        root["builders"].append({"name": "rnb2", "parent": "rnmid"})
+    args = p.setdefault("args", {})
+    if args.get("builders") is not None and rng.random() < 0.8:
+        args["builders"] = list(args["builders"]) + ["rnb"] + (["rnb2"] if any(b["name"] == "rnb2" for b in root["builders"]) else [])
+
+
+def ifthen_feature_cond(p, rng):
+    root = _root(p)
+    mods = root.setdefault("modules", [])
+    mods.append({"name": "fcp", "provides": ["fcfeat"], "sources": ["fcp.c"]})
+    mods.append({"name": "fct", "sources": ["fct.c"], "env": {"export": {"DEFS": ["-DFCT=1"], "CFLAGS": ["-Ifct"]}}})
+    kind = rng.choice(["depends", "depends", "uses-like"])
+    user = {"name": "fcu", "sources": ["fcu.c"], "depends": [{"fcfeat": ["fct"]}]}
+    if kind == "uses-like":
+        user["depends"] = [{"fcfeat": ["?fct"]}]
+    mods.append(user)
+    for k, a, pa, dd in _modules(p, ("apps",)):
+        key = "selects" if "selects" in a or "depends" not in a else "depends"
+        order = ["fcp", "fct", "fcu"]
+        rng.shuffle(order)
+        a[key] = order + list(a.get(key) or [])
+
+
+def empty_blockallow(p, rng):
+    apps = [(a, d) for k, a, pa, d in _modules(p, ("apps",))]
+    if not apps:
+        return
+    a, d = rng.choice(apps)
+    how = rng.choice(["allow-empty", "allow-empty", "block-empty", "both-empty", "allow-empty-block-some", "block-empty-allow-some", "defaults"])
+    root = _root(p)
+    names = [c["name"] for c in (root.get("contexts") or []) + (root.get("builders") or [])]
+    some = [rng.choice(names)] if names else ["default"]
+    if how == "allow-empty":
+        a["allowlist"] = []
+        a.pop("blocklist", None)
+    elif how == "block-empty":
+        a["blocklist"] = []
+    elif how == "both-empty":
+        a["allowlist"], a["blocklist"] = [], []
+    elif how == "allow-empty-block-some":
+        a["allowlist"], a["blocklist"] = [], some
+    elif how == "block-empty-allow-some":
+        a["blocklist"], a["allowlist"] = [], some
+    else:
+        d.setdefault("defaults", {}).setdefault("app", {})["allowlist"] = []
+
+
+def rule_export_escape(p, rng):
+    root = _root(p)
+    cands = [c for c in (root.get("contexts") or []) + (root.get("builders") or []) if c.get("rules")]
+    if not cands:
+        return
+    c = rng.choice(cands)
+    rules = [r for r in c["rules"] if r.get("in") in ("c", "S") or r.get("name") == "LINK"]
+    if not rules:
+        return
+    r = rng.choice(rules)
+    var = rng.choice(["OPT", "X", "LIBS", "builder", "nosuchvar"])
+    val = rng.choice(["set \\${%s} first" % var, "\\${%s}" % var, "a\\${%s}b${%s}" % (var, var), "${%s}\\${%s}" % (var, var)])
+    r["export"] = list(r.get("export") or []) + [{"HINT": val}]
+    if rng.random() < 0.5:
+        c.setdefault("env", {})
+        if isinstance(c["env"], dict):
+            c["env"].setdefault(var if var != "builder" else "X", "defd")
+
+
+def optsrc_same_guard(p, rng):
+    mods = [(m, d) for k, m, pa, d in _modules(p, ("modules",)) if isinstance(m.get("sources", []), list)]
+    names = sorted({m["name"] for m, d in mods if m.get("name")})
+    if not mods or not names:
+        return
+    m, d = rng.choice(mods)
+    guard = rng.choice([n for n in names if n != m.get("name")] or names)
+    src = m.setdefault("sources", [])
+    nm = m.get("name") or "anon"
+    src.append({guard: [nm + "_g1.c"]})
+    if rng.random() < 0.5:
+        src.append({guard: [nm + "_g2.c"]})
+    else:
+        d.setdefault("defaults", {}).setdefault("module", {}).setdefault("sources", []).append({guard: ["dflt_g.c"]})
+    for k, a, pa, dd in list(_modules(p, ("apps",)))[:2]:
+        key = "selects" if "selects" in a or "depends" not in a else "depends"
+        a[key] = ["?" + nm, "?" + guard] + list(a.get(key) or [])
+
+
+def subdirs_later_doc(p, rng):
+    docs = p["files"]["laze-project.yml"]
+    root = docs[0]
+    sub = "ld%d" % rng.randint(0, 9)
+    p["files"][sub + "/laze.yml"] = [{"modules": [{"name": sub + "_m", "sources": [sub + "_m.c"]}]}]
+    later = {"defaults": {"module": {"env": {"local": {"DEFS": ["-DLATER_DOC"]}}, "sources": ["later_common.c"]}}, "subdirs": [sub]}
+    if rng.random() < 0.5:
+        later["modules"] = [{"name": sub + "_sib", "sources": [sub + "_sib.c"]}]
+    if rng.random() < 0.6 and not root.get("defaults"):
+        root["defaults"] = {"module": {"env": {"local": {"DEFS": ["-DFIRST_DOC"]}}}}
+    docs.append(later)
+    for k, a, pa, dd in list(_modules(p, ("apps",)))[:2]:
+        key = "selects" if "selects" in a or "depends" not in a else "depends"
+        a[key] = ["?" + sub + "_m"] + list(a.get(key) or [])
+
+
+SHAPES = [("p_rule_rename_chain", rule_rename_chain), ("p_ifthen_feature_cond", ifthen_feature_cond), ("p_empty_blockallow", empty_blockallow),
+          ("p_rule_export_escape", rule_export_escape), ("p_optsrc_same_guard", optsrc_same_guard), ("p_subdirs_later_doc", subdirs_later_doc),
+          ("p_dup_listing", dup_listing), ("p_ctx_shuffle", ctx_shuffle), ("p_app_dup", app_dup), ("p_rule_field_variant", rule_field_variant),
           ("p_defaults_lists", defaults_lists), ("p_global_dep_order", global_dep_order), ("p_late_ifthen_leaf", late_ifthen_leaf)]
 
 
